@@ -118,6 +118,16 @@ func listWal(dir string) []string {
 	return out
 }
 
+func walSizes(dir string) map[string]int64 {
+	out := map[string]int64{}
+	for _, n := range listWal(dir) {
+		if st, err := os.Stat(filepath.Join(dir, n)); err == nil {
+			out[n] = st.Size()
+		}
+	}
+	return out
+}
+
 func (m *model) names() []string {
 	var out []string
 	for _, f := range m.files {
@@ -198,7 +208,8 @@ func TestC11Histories(t *testing.T) {
 		m := &model{}
 		var trace []string
 		nextID := uint64(1)
-		rotations, purges, restarts, tornInside := 0, 0, 0, 0
+		rotations, purges, restarts, tornInside, reusedOld, appendAfterTorn := 0, 0, 0, 0, 0, 0
+		tornTailPresent := false
 		steps := rapid.IntRange(2, vev.IntEnv("VERIF_C11_STEPS", 25)).Draw(t, "steps")
 		syncModelAfterAppend := func(where string) {
 			// harness self-check: the model's idea of the files equals the directory listing
@@ -207,34 +218,53 @@ func TestC11Histories(t *testing.T) {
 			}
 		}
 		doAppend := func(e HEntry) {
-			// mirror the rotation rule: no active file -> new file; active larger than 1 MiB -> rotate first
-			before := listWal(dir)
+			// the model learns from the directory which file received the entry (a new file, or
+			// the one that grew); it does not mirror the rotation rule
+			before := walSizes(dir)
 			if err := w.Append(e); err != nil {
 				vev.Fail(t, c11, "C11/append/failed", "Append(id=%d, %d bytes) failed: %v; trace=%v", e.ID, len(e.Payload), err, trace)
 			}
-			after := listWal(dir)
-			if len(after) == len(before)+1 {
-				var name string
-				bs := map[string]bool{}
-				for _, b := range before {
-					bs[b] = true
+			after := walSizes(dir)
+			var grown []string
+			for name, sz := range after {
+				if old, ok := before[name]; !ok || sz > old {
+					grown = append(grown, name)
 				}
-				for _, a := range after {
-					if !bs[a] {
-						name = a
-					}
+			}
+			for name := range before {
+				if _, ok := after[name]; !ok {
+					t.Fatalf("HARNESS: a log file disappeared during append: %v -> %v", before, after)
 				}
+			}
+			if len(grown) != 1 {
+				t.Fatalf("HARNESS: cannot tell which file received the entry: %v -> %v", before, after)
+			}
+			var target *mfile
+			for _, f := range m.files {
+				if f.name == grown[0] {
+					target = f
+				}
+			}
+			if target == nil {
+				target = &mfile{name: grown[0]}
+				m.files = append(m.files, target)
+			}
+			if target != m.active {
 				if m.active != nil {
 					m.active.closed = true
 					rotations++
 				}
-				m.active = &mfile{name: name}
-				m.files = append(m.files, m.active)
-			} else if len(after) != len(before) || m.active == nil {
-				t.Fatalf("HARNESS: unexpected directory change on append: %v -> %v", before, after)
+				if target.closed {
+					reusedOld++ // the code appended to a file of an earlier run
+				}
+				target.closed = false
+				m.active = target
 			}
 			m.active.entries = append(m.active.entries, e)
 			m.active.size += int64(len(encode(e)))
+			if tornTailPresent {
+				appendAfterTorn++
+			}
 		}
 		reopen := func(how string) {
 			var err error
@@ -378,8 +408,30 @@ func TestC11Histories(t *testing.T) {
 					}
 					vev.Case(c11, vev.Digest("torn", len(rec), k, len(snapshot)), inside, "torn-offset", fmt.Sprintf("torn-inside:%v", inside))
 				}
-				// continue the history from the last variant (complete record)
-				trace = append(trace, fmt.Sprintf("torn(id=%d,%dB,offsets=%d)", e.ID, len(rec), len(ks)))
+				// continue the history from a generated variant: usually a tail torn strictly inside
+				// the record (later appends, rotations, purges and restarts then happen with a torn
+				// tail on disk), sometimes the complete or the absent record
+				kf := len(rec)
+				switch rapid.IntRange(0, 5).Draw(t, "tornfinal") {
+				case 0:
+				case 1:
+					kf = 0
+				default:
+					if len(rec) > 2 {
+						kf = rapid.IntRange(1, len(rec)-1).Draw(t, "tornfinalk")
+					}
+				}
+				if err := os.WriteFile(activePath, append(append([]byte(nil), snapshot...), rec[:kf]...), 0o666); err != nil {
+					t.Fatalf("HARNESS: %v", err)
+				}
+				m.active.entries = append([]HEntry(nil), savedModel...)
+				if kf == len(rec) {
+					m.active.entries = append(m.active.entries, e)
+				}
+				if kf > 0 && kf < len(rec) {
+					tornTailPresent = true
+				}
+				trace = append(trace, fmt.Sprintf("torn(id=%d,%dB,offsets=%d,left=%d)", e.ID, len(rec), len(ks), kf))
 				reopen("torn crash")
 			case "all":
 				checkAll(t, "All()", w, m, trace)
@@ -389,7 +441,8 @@ func TestC11Histories(t *testing.T) {
 		_ = w.Close()
 		reopen("final reopen")
 		nt := (rotations > 0 && purges > 0 && restarts >= 3) || tornInside > 0
-		vev.Case(c11, vev.Digest(fmt.Sprint(trace)), nt, "history", fmt.Sprintf("rotation:%v", rotations > 0), fmt.Sprintf("purge:%v", purges > 0), fmt.Sprintf("restarts>=2:%v", restarts >= 3), fmt.Sprintf("torn-inside:%v", tornInside > 0))
+		vev.Case(c11, vev.Digest(fmt.Sprint(trace)), nt, "history", fmt.Sprintf("rotation:%v", rotations > 0), fmt.Sprintf("purge:%v", purges > 0), fmt.Sprintf("restarts>=2:%v", restarts >= 3), fmt.Sprintf("torn-inside:%v", tornInside > 0),
+			fmt.Sprintf("append-after-torn-tail:%v", appendAfterTorn > 0), fmt.Sprintf("appended-to-file-of-earlier-run:%v", reusedOld > 0))
 		vev.Sample(c11, func() any { return map[string]any{"kind": "history", "trace": trace, "files_at_end": m.names()} })
 	})
 }
